@@ -767,6 +767,12 @@ def diff(p: Poly, s) -> Poly:
                 r = da * inv(args[0])
             elif op == "exp":
                 r = da * Poly.of_atom(a)
+            elif op == "tanh":
+                r = da * (ONE - Poly.of_atom(a) * Poly.of_atom(a))
+            elif op == "sin":
+                r = da * unary("cos", args[0])
+            elif op == "cos":
+                r = -(da * unary("sin", args[0]))
             elif op == "abs":
                 r = da * unary("sign", args[0])
             elif op in ("lt", "eq", "isnan", "isinf", "sign"):
